@@ -22,13 +22,13 @@ def install_sim_models(ip):
 _ASSIGNMENT = {}  # unit tag -> seed-child assignment observed on the first explored path (paths differ only in unspecified iteration orders)
 
 
-def sim_unit(shape, auto_update, skip, copy=False):
-    tag = f"{shape}.auto_{'on' if auto_update else 'off'}" + (f".skip_{'_'.join(skip)}" if skip else "") + (".copy_true" if copy else "")
+def sim_unit(shape, auto_update, skip, copy=False, skip_as="list"):
+    tag = f"{shape}.auto_{'on' if auto_update else 'off'}" + (f".skip_{'_'.join(skip)}" if skip else "") + (".copy_true" if copy else "") + ("" if skip_as == "list" else f".skip_given_as_{skip_as}")
 
     @unit(f"C17.{tag}", "C17", [f"{M}::Model.simulate", f"{M}::Model.update", f"{M}::Model._recursive_inputs", f"{M}::Model._build_simulation_graph", f"{N}::Dist.init_dist", f"{N}::Value.value.fset"],
           assumptions=[f"graph shape '{shape}' (values, functions, distributions arbitrary); value shapes rank 1 with scalar batch/event shape", "A-RNG: split yields distinct children",
                        "T: tfp_dist.sample(shape, seed) draws from the distribution it was initialised with"])
-    def u(ip, shape=shape, auto_update=auto_update, skip=skip, copy=copy):
+    def u(ip, shape=shape, auto_update=auto_update, skip=skip, copy=copy, skip_as=skip_as):
         """every non-skipped distributed variable is re-drawn from its distribution initialised at the NEWLY drawn values of its
         ancestors (direct parents and parents reached through cached / transient calculations), with the sample shape of its current
         value and its own child of the seed; skipped variables keep their value; a subsequent update leaves nothing outdated."""
@@ -50,7 +50,8 @@ def sim_unit(shape, auto_update, skip, copy=False):
                 todo.extend(ip.call(method(ip, v_, "all_input_vars"), [], {}))
         ip.setattr(model, "auto_update", auto_update)
         seed = z3.Const("seed", U)
-        ip.call(method(ip, model, "simulate"), [seed], {"skip": list(skip)})
+        # (skip is declared Iterable[str]: a list, or a one-shot iterator over the names)
+        ip.call(method(ip, model, "simulate"), [seed], {"skip": list(skip) if skip_as == "list" else PyObj("iterator", items=list(skip), pos=0)})
         V = model.f["_vars"]
         val = lambda nm: ip.to_U(ip.getattr(V[nm], "value"))  # noqa: E731
         f = lambda name, *a: ip.uf(name, *[ip.to_U(x) for x in a])  # noqa: E731
@@ -108,7 +109,101 @@ sim_unit("hier", False, ("mu",))
 sim_unit("hier", True, ("tau",))
 sim_unit("flat", False, ("y",))
 sim_unit("hier", False, ("mu_log_prob",))
+sim_unit("hier", True, ("mu",), skip_as="iterator")
+sim_unit("flat", False, ("c", "y"), skip_as="iterator")
 sim_unit("hier", True, ("y_var_value",))
+
+
+def bare_dist_unit(auto_update, skip):
+    tag = f"auto_{'on' if auto_update else 'off'}" + (f".skip_{'_'.join(skip)}" if skip else "")
+
+    @unit(f"C17.distribution_nodes_without_a_variable_are_not_simulated.{tag}", "C17", [f"{M}::Model.simulate", f"{M}::Model.update", f"{N}::Dist.init_dist", f"{N}::Value.value.fset"],
+          assumptions=["graph: mu ~ Pmu; x ~ Lik(mu); two distribution nodes that belong to NO variable (extra log-density terms): one evaluated at x's own value node, one at a "
+                       "plain data node", "A-RNG", "T: tfp_dist.sample(shape, seed) draws from the distribution it was initialised with"])
+    def u(ip, auto_update=auto_update, skip=skip):
+        """'every non-skipped distributed VARIABLE': a distribution node that belongs to no variable is an extra density term, not something to simulate - x is
+        drawn once, from ITS distribution at the new mu; the data node such a term is evaluated at keeps its value; skipped variables are untouched."""
+        c = ip.ctx
+        install_graph_models(ip)
+        install_sim_models(ip)
+        from contracts.graph import dist_fn
+        g = G(ip)
+        mu = g.var("mu", dist=g.dist("Pmu"), parameter=True)
+        x = g.var("x", dist=g.dist("Lik", mu), parameter=True)
+        pen_x = ip.call(g.Dist, [dist_fn("PenX")], {"_name": "x_penalty"})
+        ip.setattr(pen_x, "at", ip.getattr(x, "var_value_node"))
+        data = ip.call(g.Value, [z3.Const("val_data", U)], {"_name": "data"})
+        pen_d = ip.call(g.Dist, [dist_fn("PenD")], {"_name": "data_penalty"})
+        ip.setattr(pen_d, "at", data)
+        model = g.build(x, pen_x, pen_d)
+        ip.setattr(model, "auto_update", auto_update)
+        seed = z3.Const("seed", U)
+        ip.call(method(ip, model, "simulate"), [seed], {"skip": list(skip)})
+        V = model.f["_vars"]
+        val = lambda nm: ip.to_U(ip.getattr(V[nm], "value"))  # noqa: E731
+        sh = lambda nm: ip.to_U((ip.uf("len0", z3.Const(f"val_{nm}", U), sort=Int),))  # noqa: E731
+
+        def drawn(nm, fam, *params):
+            got = val(nm)
+            ok = got.decl().name().startswith(f"draw_{fam}_") and got.num_args() == len(params) + 2
+            if ok:
+                sd = got.arg(len(params) + 1)
+                ok = all(got.arg(i).eq(ip.to_U(p)) for i, p in enumerate(params)) and got.arg(len(params)).eq(sh(nm)) and sd.decl().name().startswith("split") and sd.arg(0).eq(seed)
+            return bool(ok)
+
+        if "mu" in skip:
+            c.oblige("mu.skipped_untouched", val("mu").eq(z3.Const("val_mu", U)))
+        else:
+            c.oblige("mu.drawn_from_its_distribution", drawn("mu", "Pmu"), got=str(val("mu")))
+        if "x" in skip:
+            c.oblige("x.skipped_untouched", val("x").eq(z3.Const("val_x", U)))
+        else:
+            c.oblige("x.drawn_from_its_own_distribution_at_the_new_mu", drawn("x", "Lik", val("mu")))
+        c.oblige("data_node_keeps_its_value", ip.to_U(ip.getattr(model.f["_nodes"]["data"], "value")).eq(z3.Const("val_data", U)))
+        ip.call(method(ip, model, "update"), [], {})
+        c.oblige("coherent_after_update", not any(ip.truth(ip.getattr(n_, "outdated")) is True for n_ in model.f["_nodes"].values()))
+    return u
+
+
+for _a, _sk in ((True, ()), (False, ()), (True, ("x",)), (False, ("mu",))):
+    bare_dist_unit(_a, _sk)
+
+
+def through_dist_reader_unit(auto_update):
+    @unit(f"C17.ancestor_reached_through_a_node_that_reads_a_distribution_node.auto_{'on' if auto_update else 'off'}", "C17",
+          [f"{M}::Model.simulate", f"{M}::Model._build_simulation_graph", f"{M}::Model.update", f"{N}::Dist.init_dist"],
+          assumptions=["graph: a ~ Pa; y ~ Lik(a); u = PIT(y) (the legacy probability-integral-transform node takes y's DISTRIBUTION node as its input); z ~ Dz(u)", "A-RNG", "A-NX",
+                       "T: tfp_dist.sample / cdf"])
+    def u(ip, auto_update=auto_update):
+        """an ancestor may be reached through a node whose input is a distribution node (a PIT / copula-style model): z is drawn at u evaluated at the NEWLY drawn y and a,
+        i.e. after them."""
+        c = ip.ctx
+        install_graph_models(ip)
+        install_sim_models(ip)
+        g = G(ip)
+        a = g.var("a", dist=g.dist("Pa"), parameter=True)
+        y = g.var("y", dist=g.dist("Lik", a), parameter=True)
+        uu = ip.call(ip.repo("liesel/model/legacy.py::PIT"), [y], {})
+        z = g.var("z", dist=g.dist("Dz", uu), parameter=True)
+        model = g.build(z)
+        ip.setattr(model, "auto_update", auto_update)
+        seed = z3.Const("seed", U)
+        ip.call(method(ip, model, "simulate"), [seed], {})
+        V = model.f["_vars"]
+        val = lambda nm: ip.to_U(ip.getattr(V[nm], "value"))  # noqa: E731
+        va, vy, vz = val("a"), val("y"), val("z")
+        head = lambda t, fam: is_z3(t) and t.decl().name().startswith(f"draw_{fam}_")  # noqa: E731
+        c.oblige("a_drawn", head(va, "Pa"))
+        c.oblige("y_drawn_at_the_new_a", head(vy, "Lik") and vy.arg(0).eq(va))
+        want_u = ip.uf("cdf_Lik", va, vy)
+        c.oblige("z_drawn_at_u_of_the_new_y_and_a", head(vz, "Dz") and vz.arg(0).eq(want_u), got=str(vz)[:300], want_u=str(want_u)[:200])
+        ip.call(method(ip, model, "update"), [], {})
+        c.oblige("coherent_after_update", not any(ip.truth(ip.getattr(n_, "outdated")) is True for n_ in model.f["_nodes"].values()))
+    return u
+
+
+for _a in (True, False):
+    through_dist_reader_unit(_a)
 
 
 @unit("C17.sample_shape", "C17", [f"{M}::Model.simulate"], assumptions=["value of rank 3; event rank 0/1, batch rank 0/1 (the four combinations), and per_obs=False for event rank 0"])
